@@ -467,8 +467,13 @@ func RunC05(tier string, args []string) int {
 	if len(samples) == 0 {
 		samples = []string{c05Case{Signer: "stranger-bare", Status: xocsp.Good, FlipBit: -1}.String(), c05Case{Signer: "issuer", Status: xocsp.Revoked, FlipBit: 777, FlipSeed: "issuer-revoked"}.String()}
 	}
+	// all schedules (<= 2 preemptions) of two lookups at the same moment on one checker: certificates of two issuers
+	// which name the same responder address and carry the same serial number - each gets the answer about itself
+	srep := exploreInProcess(chk, "C05", ocspSharedResponderScenario("C05"), 2)
+	fmt.Printf("  S %-40s execs=%d per-bound=%v outcomes=%v\n", srep.Scenario, srep.Executions, srep.PerBound, srep.Outcomes)
 	cov := fw.Coverage{
-		"evaluations":         evals,
+		"schedule_scenario":   srep,
+		"evaluations":         evals + srep.Executions,
 		"distinct_nontrivial": evals - authN,
 		"rule":                "signer (issuer, delegated responder with / without OCSPSigning EKU, authorised responder without embedded certificate, client's own certificate, stranger with / without embedded certificate, sibling CA, client certificates named like their issuer answering about themselves) x serial (this, other) x status (good, revoked, unknown); OCSP error statuses; every single-bit flip of an authentic good and an authentic revoked response. Each case = fresh checker, strict on, call, responder down, call again. Non-trivial = response not authentic by construction.",
 		"samples":             samples,
